@@ -15,17 +15,32 @@ from checks import system_common as sc      # noqa
 
 
 def main():
-    sessions = [sc.session(i, 5 * 8191 + i, i % 3 == 0) for i in range(60)]
+    sessions = [sc.session(i, 5 * 8191 + i, i % 3 == 0) for i in range(40)]
+    sessions += [sc.session(i, 5 * 8191 + i, False, True) for i in range(40, 70)]                  # timing-minded sessions
+    sessions += [sc.session(i, 5 * 8191 + i, False, False, True) for i in range(70, 100)]          # sessions with named files
     bad = []
     for s in sessions:
         s2 = copy.deepcopy(s)
         s2["id"] = s["id"] + 1000
-        cands = [i for i, e in enumerate(s2["events"]) if e["op"] in ("setkey", "setattr", "setchartitem", "setchartfield", "getattr", "reopen", "tossc", "tosm")]
+        special = [i for i, e in enumerate(s2["events"]) if (e["op"] == "timenotes" and e["res"]) or e["op"] == "openfile"
+                   or (e["op"] == "mutatefile" and e["body"] == "normal" and e["res"] == "ok")]
+        cands = special or [i for i, e in enumerate(s2["events"]) if e["op"] in ("setkey", "setattr", "setchartitem", "setchartfield", "getattr", "reopen", "tossc", "tosm")]
         if not cands:
             continue
         i = cands[len(cands) // 2]
         e = s2["events"][i]
-        if e["op"] in ("setkey", "setattr", "setchartitem", "setchartfield"):
+        if e["op"] == "timenotes":
+            e["res"][len(e["res"]) // 2]["tm"] += 1                       # one note's time off by 1/286720 s
+        elif e["op"] == "openfile":
+            e["res"] = "ValueError" if e["res"] == "ok" else "ok"
+        elif e["op"] == "mutatefile":
+            extra = [35, 90, 90, 58, 49, 59, 10]                          # "#ZZ:1;\n": a property the edited simfile does not have
+            target = e["out"] or e["name"]
+            e["texts"]["out"] = e["texts"]["out"] + extra
+            for f in e["fsafter"]:
+                if f["n"] == target:
+                    f["t"] = f["t"] + extra
+        elif e["op"] in ("setkey", "setattr", "setchartitem", "setchartfield"):
             e["v"] = e["v"] + [33]
         elif e["op"] == "getattr":
             e["res"] = (e["res"] if e["res"] != [-1] else []) + [33]
@@ -36,7 +51,7 @@ def main():
         bad.append((s2, i + 1))
     text = "".join(json.dumps(s) + "\n" for s in sessions + [b[0] for b in bad])
     res = tlc.run(module="Trace_System", cfg="SPECIFICATION TraceSpec\nINVARIANT InvType\n", dirs=sc.DIRS,
-                  files={"trace.ndjson": text}, env={"TRACE_FILE": "trace.ndjson"}, timeout=1800, coverage=True, heap="8g")
+                  files={"trace.ndjson": text}, env={"TRACE_FILE": "trace.ndjson"}, timeout=1800, heap="8g")
     tlc.require_ok(res, "Trace_System")
     v = {x["id"]: x for x in res.printed}
     good = collections.Counter(v[s["id"]]["verdict"] for s in sessions)
@@ -44,7 +59,8 @@ def main():
     bad = [(s2, at) for s2, at in bad if v[s2["id"] - 1000]["verdict"] == "ACCEPT"]
     hit = sum(1 for s2, at in bad if v[s2["id"]]["verdict"] == "REJECT" and v[s2["id"]]["at"] == at)
     print("recorded sessions:", dict(good), "| corrupted sessions rejected at the corrupted event: %d / %d" % (hit, len(bad)))
-    print("coverage:", {k: c[1] for k, c in res.coverage.items()})
+    kinds = collections.Counter(s2["events"][at - 1]["op"] for s2, at in bad)
+    print("corrupted event kinds:", dict(kinds))
     ok = good.get("REJECT", 0) == 0 and hit == len(bad) and len(bad) > 20
     return 0 if ok else 1
 
